@@ -124,5 +124,14 @@ func NumToString[T Number](n T) string {
 		return fmt.Sprintf("%.2f", float64(n))
 	}
 
+	// The digits of the number, not its String method: a named integer type may have one
+	// (type Celsius int with String() "7°C"), and N could not read that back.
+	switch v := reflect.ValueOf(n); v.Kind() {
+	case reflect.Int, reflect.Int8, reflect.Int16, reflect.Int32, reflect.Int64:
+		return strconv.FormatInt(v.Int(), 10)
+	case reflect.Uint, reflect.Uint8, reflect.Uint16, reflect.Uint32, reflect.Uint64, reflect.Uintptr:
+		return strconv.FormatUint(v.Uint(), 10)
+	}
+
 	return fmt.Sprintf("%v", n)
 }
